@@ -181,12 +181,17 @@ def run(prop, tier, seed, replay=None):
             if prop.gen.nontrivial(c, io):
                 distinct.add(vlib.case_key(c))
             what = prop.oracle(c, io)
-            if what is None and impl_rel is not None and impl_rel[i] != io:
+            if (what is None and impl_rel is not None and impl_rel[i] != io
+                    and not (hasattr(prop, "profile_dependent") and prop.profile_dependent(c))):
                 # debug and release profiles must agree (overflow semantics differ there)
                 what = prop.oracle(c, impl_rel[i]) or "release profile result differs from debug profile"
             expected = prop.model_expected(c, io) if hasattr(prop, "model_expected") else io
             if what is not None:
                 oracle_hits.append((i, c, io, mo, what))
+                # a known finding is modelled faithfully: model and code must still agree on it
+                if (model is not None and mo != expected and prop.known(c, io, what) is not None
+                        and not (io[:1] == [2] and len(io) == 2 and io[1] in (4, 8))):
+                    disagreements.append((i, c, io, mo))
             elif model is not None and mo != expected:
                 disagreements.append((i, c, io, mo))
 
